@@ -321,7 +321,7 @@ class Inliner:
                     def visit_Call(self, node):
                         self.generic_visit(node)
                         nonlocal n
-                        g = P.resolve_call(caller, node)
+                        g = inl._resolve(caller, node)
                         if not isinstance(g, FuncInfo) or g.fq not in single or g is caller:
                             return node
                         fi, expr = single[g.fq]
@@ -451,13 +451,13 @@ class Inliner:
             kind = "test"
         from .model import FuncInfo
 
-        if call is None or not (isinstance(self.P.resolve_call(caller, call), FuncInfo) and self.P.resolve_call(caller, call).fq in new):
+        if call is None or not (isinstance(self._resolve(caller, call), FuncInfo) and self._resolve(caller, call).fq in new):
             hoisted = self._hoist_inner_call(caller, s, new)
             if hoisted is not None:
                 return hoisted
         if call is None:
             return None
-        g = self.P.resolve_call(caller, call)
+        g = self._resolve(caller, call)
 
         if not isinstance(g, FuncInfo) or g.fq not in new or g is caller:
             return None
@@ -468,7 +468,7 @@ class Inliner:
         if why is None:
             for c in _own(g.node):
                 if isinstance(c, ast.Call):
-                    h = self.P.resolve_call(g, c)
+                    h = self._resolve(g, c)
                     if isinstance(h, FuncInfo) and h.fq in new and h is not g and self.inlinable_def(h) is None and h.fq not in self.skipped and not self.force:
                         self.waiting += 1
                         return None  # wait for the next round
@@ -537,7 +537,7 @@ class Inliner:
                     continue
                 c, awaited = self._call_of(child)
                 if c is not None:
-                    g = self.P.resolve_call(caller, c)
+                    g = self._resolve(caller, c)
                     if isinstance(g, FuncInfo) and g.fq in new and g is not caller:
                         found.append((parent, field, idx, child))
                         return True
@@ -570,6 +570,37 @@ class Inliner:
             return None
         return rep + [s]
 
+    _COMMON_METHOD_NAMES = {"get", "items", "keys", "values", "append", "extend", "pop", "update", "copy", "clear", "send", "receive", "close", "aclose", "cancel", "result", "done", "set", "wait",
+                            "strip", "split", "join", "format", "lower", "upper", "startswith", "endswith", "encode", "decode", "read", "write", "add", "remove", "index", "count", "sort", "run", "start", "stop"}
+
+    def _resolve(self, caller, call):
+        """P.resolve_call, plus: a call `<object>.m(…)` on an object of unknown type resolves to the one method named `m`
+        in the whole package when that method is new (absent from the reference decomposition) and no other class defines
+        the name — logic moved onto a record class (`session.is_expired(now, age)`, `rec.touch(now)`) is then read at the
+        call site like any other new helper."""
+        from .model import FuncInfo
+
+        g = self.P.resolve_call(caller, call)
+        if g is not None or not isinstance(call.func, ast.Attribute):
+            return g
+        m = call.func.attr
+        if m in self._COMMON_METHOD_NAMES or m.startswith("__"):
+            return None
+        recv = call.func.value
+        if isinstance(recv, ast.Name) and recv.id in ("self", "cls"):
+            return None
+        cache = self.__dict__.setdefault("_by_method_name", None)
+        if cache is None:
+            cache = {}
+            for fi in self.P.funcs.values():
+                if fi.cls is not None and fi.parent is None:
+                    cache.setdefault(fi.name, []).append(fi)
+            self._by_method_name = cache
+        cands = cache.get(m, [])
+        if len(cands) == 1 and self.is_new(cands[0]):
+            return cands[0]
+        return None
+
     def _receiver_problem(self, caller, call, g) -> Optional[str]:
         deco = [ast.unparse(d) for d in g.node.decorator_list]
         if g.cls is None:
@@ -580,6 +611,19 @@ class Inliner:
         if isinstance(f.value, ast.Name) and f.value.id in ("self", "cls"):
             return None
         if "staticmethod" in deco:
+            return None
+        # another object, named by a plain reference (`rec`, `self.sessions[sid]`, `entry.info`): the method's `self` is that reference
+
+        def plain(e):
+            if isinstance(e, (ast.Name, ast.Constant)):
+                return True
+            if isinstance(e, ast.Attribute):
+                return plain(e.value)
+            if isinstance(e, ast.Subscript):
+                return plain(e.value) and plain(e.slice)
+            return False
+
+        if plain(f.value) and self.P.resolve_call(caller, call) is None:
             return None
         return "method called on another object"
 
